@@ -11,20 +11,31 @@
      C12_duplicates_unchanged, C12_duplicate_codes_unchanged
      C12_never_stores_mismatch   (invariant over all histories, both schemes)
 
-   NOT PROVED (stated here, checked only by the correspondence run and the Go oracle):
-     Inv            : every request's ancestors are pending, deps = number of pending
-                      children, membatch ∪ store closed under children
-     sync_progress  : delivering a pending request strictly decreases the number of
-                      target nodes neither delivered nor present
-     sync_complete  : pending = 0 -> after Commit the store ⊇ nodes_of target ∪ codes and
-                      reopening reads every key   (needs Inv; in the path scheme also the
-                      prefix argument that deletions never hit a completed subtree)
-     sync_minimal   : every requested (path, hash) ∈ nodes_of target ∖ already-present
-     sync_order_irrelevant : any two complete delivery orders give the same store
-   C12_never_stores_mismatch is the part of the property named "_partial" in the
-   sense of the guide: it is the safety half ("a delivered node whose hash does not
-   match its request is rejected and never written"), not completeness. *)
-From GV Require Import Trie.Node Trie.Hash Storage.KV Trie.Sync Trie.SyncProofs.
+   ROUND 2 (HASH scheme; T = the serving side's node blobs by hash, CD its codes,
+   RN/RC = nodes_of / codes_of the target, reachable from the root through the account
+   leaves; db0 = the destination at NewSync):
+     C12_sync_minimal   FULL (hash scheme, with the account callback, all histories of
+                        Missing / node deliveries / code deliveries / Commits): every
+                        pending request, everything Missing returns, every membatch
+                        write and every database entry that is not initial content is
+                        a node / code of the target, and nothing requested was present
+                        in db0.
+     C12_sync_complete_partial   PARTIAL: completeness for a sync WITHOUT leaf callback
+                        (one trie, e.g. a storage trie): after any history of Missing
+                        and node deliveries (any order, duplicates, corrupted blobs)
+                        that leaves no request pending, Commit leaves every node of the
+                        target in the store.  Proved through the invariant Inv =
+                        invE None /\ slack zero /\ reqT of Trie/SyncComplete.v (every
+                        request's parent is pending and delivered; deps >= number of
+                        pending children; a delivered request's children are available
+                        or pending under it; membatch ∪ store closed under children).
+   NOT PROVED: completeness through the account callback (storage tries and codes:
+     the lemmas inv_upd / inv_sched / inv_remove / inv_cnr are general, what is missing
+     is children_loop with on_account, process_code and Commit inside a history),
+     deps = (not just >=) the number of pending children, sync_progress,
+     sync_order_irrelevant, and everything about completeness in the PATH scheme (needs
+     the prefix argument that deletions never hit a completed subtree). *)
+From GV Require Import Trie.Node Trie.Hash Storage.KV Trie.Sync Trie.SyncProofs Trie.SyncInv Trie.SyncComplete.
 
 (* the delivery composition (hash check, then ProcessNode) rejects a blob whose hash
    differs from the requested one and changes nothing *)
@@ -113,6 +124,41 @@ Proof.
   apply hash_ok_run; [exact Hlen|exact Hw|]. apply hash_ok_new_sync. exact Hk.
 Qed.
 Print Assumptions C12_never_stores_mismatch.
+
+(* everything requested / buffered / stored is a target node or code not present before *)
+Theorem C12_sync_minimal :
+  forall (H : list N -> list N) (T CD : list N -> option (list N)) (root : list N) (cb0 : cbkind)
+         (db0 : kv) (ops : list op),
+    (* the destination agrees with the target where they overlap (keyed by hash, no collision) *)
+    (forall k v, get k db0 = Some v ->
+       (forall b, RNh H T root cb0 k -> T k = Some b -> v = b) /\
+       (forall h c, k = code_key h -> RC H T root cb0 h -> CD h = Some c -> v = c)) ->
+    let s0 := unsum (new_sync H false db0 root cb0) in
+    (* deliveries are checked against the request's hash; a blob passing the check is the target's *)
+    run_wf3 H T CD s0 ops ->
+    sound H T CD root cb0 db0 (run H s0 ops) /\
+    forall k, let '(s', ns, cs) := missing (run H s0 ops) k in
+      ns_ok H T root cb0 db0 ns /\ cs_ok H T root cb0 db0 cs.
+Proof.
+  intros H T CD root cb0 db0 ops Ha s0 W.
+  assert (S : sound H T CD root cb0 db0 (run H s0 ops)).
+  { apply sound_run; [exact Ha|exact W|apply sound_new_sync]. }
+  split; [exact S|]. intros k. pose proof (sound_missing H T CD root cb0 db0 _ k S) as X.
+  destruct (missing (run H s0 ops) k) as [[s1 ns] cs]. apply X.
+Qed.
+Print Assumptions C12_sync_minimal.
+
+(* completeness, hash scheme, sync without leaf callback *)
+Theorem C12_sync_complete_partial :
+  forall (H : list N -> list N) (T CD : list N -> option (list N)) (root : list N) (db0 : kv)
+         (ops : list op2) (s' : sync),
+    closed0 H T root CbNone db0 ->
+    let s0 := unsum (new_sync H false db0 root CbNone) in
+    run2_wf H T s0 ops ->
+    nreqs (run2 H s0 ops) = [] -> commit (run2 H s0 ops) = Some s' ->
+    forall p h cb, RN H T root CbNone p h cb -> has h (sc_db s') = true.
+Proof. exact sync_complete_nocallback. Qed.
+Print Assumptions C12_sync_complete_partial.
 
 (* non-vacuity: a one-leaf trie synced under a 32-byte toy hash: the history (Missing,
    a corrupted delivery, the delivery, a duplicate, Commit) satisfies run_wf, one
